@@ -62,6 +62,9 @@ pub struct VerifStats {
     pub aux_mismatch: u64,
     /// failing negative look-arounds whose unwinding was checked
     pub neg_lookaround_fails: u64,
+    /// alternatives that were resumed (popped outside the discard loop of a failing negative
+    /// look-around) without having been counted against the backtrack limit
+    pub uncounted_resumes: u64,
     /// comparisons made by the lock-step shadow
     pub shadow_checks: u64,
     /// comparisons that failed
@@ -106,6 +109,10 @@ pub(super) struct Monitor {
     neg_tags: Vec<(usize, usize)>,
     /// entry record of the negative look-around whose `Split` is about to push
     pending_neg: Option<(usize, usize)>,
+    /// the failure path counted a backtrack and has not popped the alternative it resumes yet
+    resume_credit: bool,
+    /// inside the loop in which a failing negative look-around discards its own alternatives
+    discarding: bool,
     stats: VerifStats,
 }
 
@@ -120,6 +127,8 @@ impl Monitor {
             aux_tags: Vec::new(),
             neg_tags: Vec::new(),
             pending_neg: None,
+            resume_credit: false,
+            discarding: false,
             stats: VerifStats::default(),
         }
     }
@@ -155,6 +164,7 @@ impl Drop for Monitor {
             s.cuts_multi += mine.cuts_multi;
             s.cuts_same_slot += mine.cuts_same_slot;
             s.aux_mismatch += mine.aux_mismatch;
+            s.uncounted_resumes += mine.uncounted_resumes;
             s.neg_lookaround_fails += mine.neg_lookaround_fails;
             s.shadow_checks += mine.shadow_checks;
             s.shadow_faults += mine.shadow_faults;
@@ -214,6 +224,12 @@ pub(super) fn on_push(state: &mut State) {
 
 pub(super) fn on_pop(state: &mut State) {
     state.verif.stats.pops += 1;
+    if !state.verif.discarding {
+        // every alternative that is taken up again must have been counted by the failure path
+        if !core::mem::take(&mut state.verif.resume_credit) {
+            state.verif.stats.uncounted_resumes += 1;
+        }
+    }
     if !state.verif.shadow_on {
         return;
     }
@@ -310,6 +326,7 @@ pub(super) fn before_fail_neg(
     pc: usize,
     neg_partner: &[usize],
 ) -> Option<usize> {
+    state.verif.discarding = true;
     if !state.verif.shadow_on {
         return None;
     }
@@ -332,6 +349,7 @@ pub(super) fn before_fail_neg(
 /// Called by `FailNegativeLookAround` after it discarded the look-around's alternatives: exactly
 /// those created since the look-around was entered must be gone, and none older.
 pub(super) fn after_fail_neg(state: &mut State, entered_with: Option<usize>) {
+    state.verif.discarding = false;
     let Some(depth) = entered_with else {
         return;
     };
@@ -359,6 +377,7 @@ pub(super) fn on_insn(state: &mut State) {
 
 pub(super) fn on_backtrack(state: &mut State, backtrack_count: usize) {
     state.verif.stats.last_backtracks = backtrack_count as u64;
+    state.verif.resume_credit = true;
 }
 
 pub(super) fn on_delegate(state: &mut State) {
